@@ -17,6 +17,9 @@ def run(ctx):
     ranged_rule(ctx, syn)
     rowkind_rule(ctx, syn)
     prog = mirq.Program(ctx.facts.mir())
+    dialect_rule(ctx, prog)
+    idcol_rule(ctx, syn)
+    textlen_rule(ctx, prog)
     ctx.not_decided += ["text of values (the format stores values as text)", "file handling and stand-off members", "identifiers that contain the ';' separator (outside the claim)"]
 
     ti = syn.fn("try_into", self_ty="AnnotationCsv<'a>", trait="TryInto<AnnotationBuilder<'a>>") if syn.find_fns("try_into", trait="TryInto<AnnotationBuilder<'a>>") else None
@@ -416,3 +419,96 @@ def rowkind_rule(ctx, syn):
             ctx.report(r, k2, "the writer emits a %s row (id %s, key %r, value %r) and the reader takes it for a %s: %s" % (
                 kind, id_, key, value, "key declaration" if got else "data item",
                 "a data item whose value is the empty string is lost on reload (and annotations that use it fail to load)" if kind == "data" else "a declared key becomes a data item"), rd.file, cond.get("l"))
+
+
+# ---------------------------------------------------------------------- DIALECT
+READER_ONLY = {"trim": "strips leading/trailing whitespace of every field: values (and validation texts) come back shortened",
+               "comment": "drops every row that starts with the comment character", "flexible": "accepts rows with missing columns"}
+NEUTRAL = {"new", "from_reader", "from_writer", "from_path", "buffer_capacity", "has_headers", "default"}
+
+
+def dialect_rule(ctx, prog, rid="C15.DIALECT"):
+    """what the CSV writer emits is read back field by field unchanged only if reader and writer use the same dialect;
+    both are the csv crate's defaults today"""
+    r = ctx.rule(rid, "the CSV readers and writers are configured with the same dialect: no option of csv::ReaderBuilder / csv::WriterBuilder that changes how a field is written or read is set on one side only")
+    opts = {"Reader": {}, "Writer": {}}
+    n = 0
+    for bid, b in sorted(prog.bodies.items()):
+        if b.d.get("derived"):
+            continue
+        for bi, t in b.calls():
+            d = mirq.callee_of(t)[0] or ""
+            m = re.match(r"^csv::(?:\w+::)*(Reader|Writer)(Builder)?(?:::<[^>]*>)?::(\w+)$", d)
+            if not m:
+                continue
+            side, builder, meth = m.group(1), m.group(2), m.group(3)
+            if meth in ("from_reader", "from_writer", "from_path"):
+                n += 1
+                r.hit("%s|%s#%d" % (bid, meth, n), sample={"in": bid, "constructs": "csv::%s%s::%s" % (side, builder or "", meth)})
+            if builder and meth not in NEUTRAL:
+                arg = b.key_of_operand(t["args"][1]) if len(t.get("args", [])) > 1 else ""
+                opts[side].setdefault(meth, []).append((bid, arg, b.file, t.get("line")))
+    ctx.floor(r, n, 2, "CSV reader/writer constructions")
+    for meth, sites in sorted(opts["Reader"].items()):
+        for bid, arg, file, line in sites:
+            if meth in READER_ONLY:
+                if meth == "trim" and re.search(r"Trim::None|None", arg or ""):
+                    continue
+                ctx.report(r, "reader-only:" + meth, "%s configures its CSV reader with .%s(..): %s, while the writer emits them as they are: the store read back differs from the one written" % (bid, meth, READER_ONLY[meth]), file, line)
+            else:
+                w = opts["Writer"].get(meth)
+                if not w or any(a != arg for _, a, _, _ in w):
+                    ctx.report(r, "one-sided:" + meth, "%s sets the dialect option .%s(..) on the CSV reader only (or with another value than the writer)" % (bid, meth), file, line)
+    for meth, sites in sorted(opts["Writer"].items()):
+        for bid, arg, file, line in sites:
+            rr = opts["Reader"].get(meth)
+            if meth in ("quote_style",):
+                continue  # how much is quoted does not change what is read
+            if not rr or any(a != arg for _, a, _, _ in rr):
+                ctx.report(r, "one-sided:" + meth, "%s sets the dialect option .%s(..) on the CSV writer only (or with another value than the reader)" % (bid, meth), file, line)
+
+
+# ---------------------------------------------------------------------- IDCOL
+DROPPING = {"filter": "may turn Some(id) into None", "and_then": "may turn Some(id) into None", "take_if": "may turn Some(id) into None", "xor": "may turn Some(id) into None",
+            "filter_map": "may drop the id", "zip": "None when the other side is None"}
+
+
+def idcol_rule(ctx, syn):
+    """the Id column of every CSV row is the item's own identifier, unconditionally"""
+    r = ctx.rule("C15.IDCOL", "the Id column of a CSV row is the item's identifier whenever it has one: the writer never passes it through an adaptor that can drop it (the reader would invent or derive another identifier)")
+    n = 0
+    for fn in syn.fns:
+        if fn.file != "src/csv.rs" or not fn.body:
+            continue
+        for lit in walk(fn.body):
+            if lit.get("k") != "structlit" or not lit["path"][-1].endswith("Csv"):
+                continue
+            for f in lit["fields"]:
+                if f["name"] != "id":
+                    continue
+                n += 1
+                key = "%s|%s#%d" % (fn.qual, lit["path"][-1], n)
+                r.hit(key, sample={"row": lit["path"][-1], "id": unparse(f["e"])[:70]})
+                for m in walk(f["e"]):
+                    if m.get("k") == "mcall" and m["method"] in DROPPING:
+                        ctx.report(r, "%s|%s|%s" % (fn.qual, lit["path"][-1], m["method"]), "the writer of %s rows passes the identifier through .%s(..), which %s: an item that has a public identifier is written without it and comes back under a different one (references to it no longer resolve)" % (lit["path"][-1], m["method"], DROPPING[m["method"]]), fn.file, m.get("l"))
+    ctx.floor(r, n, 8, "Id columns written")
+
+
+# ---------------------------------------------------------------------- TEXTLEN
+def textlen_rule(ctx, prog):
+    """end-aligned offsets (written verbatim) are resolved against the text length of the reloaded resource: it must be
+    a codepoint count wherever a resource is constructed"""
+    import units
+    r = ctx.rule("C15.TEXTLEN", "wherever a TextResource is built (also from a plain text file, the path every CSV store is read back through), textlen and every stored position is a codepoint count, never a byte count")
+    v, st = units.analyse(prog, lambda b: b.file in ("src/resources.rs", "src/csv.rs"))
+    r.instances += st["locals_with_unit"]
+    import json as _json, os as _os
+    from core import VERIF
+    with open(_os.path.join(VERIF, "rules", "units_ok.json")) as fh:
+        okk = _json.load(fh)
+    for x in v:
+        if x["key"] in okk:
+            continue
+        ctx.report(r, x["key"], "unit mismatch in %s: %s" % (x["body"], x["detail"]), x["file"], x["line"])
+    ctx.floor(r, st["bodies"], 100, "bodies of resources.rs / csv.rs analysed")
